@@ -39,11 +39,14 @@ structure Res where
   s : Option Json := none
   nt : Bool := true
   kf : Option String := none
+  /-- indices (into the observation array) whose deviation from the spec is attributed to `kf`;
+  empty = the whole case. -/
+  kfi : List Nat := []
 
 def Res.toJson (id : Nat) (r : Res) : Json :=
   Json.mkObj <|
     [("id", jNat id), ("m", r.m), ("nt", Json.bool r.nt)]
     ++ (match r.s with | some s => [("s", s)] | none => [])
-    ++ (match r.kf with | some s => [("kf", Json.str s)] | none => [])
+    ++ (match r.kf with | some s => [("kf", Json.str s), ("kfi", jNats r.kfi)] | none => [])
 
 end Hub.Drv
